@@ -4,7 +4,7 @@
  "standin": "B-xfail",
  "bound": "3 xfail marker placements x {create,fix | fix,update,trim | review(all n)} real sessions vs disable",
  "input": "xfail modules with --inline-snapshot=create,fix",
- "detail": "modified although every test is marked xfail: ['test_cls.py', 'test_mod.py']; outcomes differ from --inline-snapshot=disable: [('XFAIL', 'test_cls.py::TestX::test_a'), ('XFAIL', 'test_cls.py::TestX::test_b'), ('XFAIL', 'test_fn.py::test_a'), ('XFAIL', 'test_fn.py::test_b'), ('XFAIL', 'test_mod.py::test_a'), ('XFAIL', 'test_mod.py::test_b'), ('XPASS', 'test_cls.py::TestX::test_a'), ('XPASS', 'test_cls.py::TestX::test_b'), ('XPASS', 'test_mod.py::test_a'), ('XPASS', 'test_mod.py::test_b')] exit 0 vs [('XFAIL', 'test_cls.py::TestX::test_a'), ('XFAIL', 'test_cls.py::TestX::test_b'), ('XFAIL', 'test_fn.py::test_a'), ('XFAIL', 'test_fn.py::test_b'), ('XFAIL', 'test_mod.py::test_a'), ('XFAIL', 'test_mod.py::test_b')] exit 0\n -4,7 +4,7 @@                                                              |\n|                                                                              |\n|  pytestmark = pytest.mark.xfail                                              |\n|                                                                              |\n|  def test_a():                                                               |\n| -    assert 5 == snapshot(4)                                                 |\n| +    assert 5 == snapshot(5)                                                 |\n|                                                                              |\n|  def test_b():                                                               |\n| -    assert 5 in snapshot([3])                                               |\n| +    assert 5 in snapshot([3, 5])                                            |\n+------------------------------------------------------------------------------+\nThese changes will be applied, because you used fix\n\n\n=================================== XPASSES ====================================\n=========================== short test summary info ============================\nXFAIL test_cls.py::TestX::test_a\nXFAIL test_cls.py::TestX::test_b\nXFAIL test_fn.py::test_a\nXFAIL test_fn.py::test_b\nXFAIL test_mod.py::test_a\nXFAIL test_mod.py::test_b\nXPASS test_cls.py::TestX::test_a\nXPASS test_cls.py::TestX::test_b\nXPASS test_mod.py::test_a\nXPASS test_mod.py::test_b\n6 xfailed, 4 xpassed in 2.12s\n"
+ "detail": "modified although every test is marked xfail: ['test_cls.py', 'test_mod.py']; outcomes differ from --inline-snapshot=disable: [('XFAIL', 'test_cls.py::TestX::test_a'), ('XFAIL', 'test_cls.py::TestX::test_b'), ('XFAIL', 'test_fn.py::test_a'), ('XFAIL', 'test_fn.py::test_b'), ('XFAIL', 'test_mod.py::test_a'), ('XFAIL', 'test_mod.py::test_b'), ('XPASS', 'test_cls.py::TestX::test_a'), ('XPASS', 'test_cls.py::TestX::test_b'), ('XPASS', 'test_mod.py::test_a'), ('XPASS', 'test_mod.py::test_b')] exit 0 vs [('XFAIL', 'test_cls.py::TestX::test_a'), ('XFAIL', 'test_cls.py::TestX::test_b'), ('XFAIL', 'test_fn.py::test_a'), ('XFAIL', 'test_fn.py::test_b'), ('XFAIL', 'test_mod.py::test_a'), ('XFAIL', 'test_mod.py::test_b')] exit 0\n -4,7 +4,7 @@                                                              |\n|                                                                              |\n|  pytestmark = pytest.mark.xfail                                              |\n|                                                                              |\n|  def test_a():                                                               |\n| -    assert 5 == snapshot(4)                                                 |\n| +    assert 5 == snapshot(5)                                                 |\n|                                                                              |\n|  def test_b():                                                               |\n| -    assert 5 in snapshot([3])                                               |\n| +    assert 5 in snapshot([3, 5])                                            |\n+------------------------------------------------------------------------------+\nThese changes will be applied, because you used fix\n\n\n=================================== XPASSES ====================================\n=========================== short test summary info ============================\nXFAIL test_cls.py::TestX::test_a\nXFAIL test_cls.py::TestX::test_b\nXFAIL test_fn.py::test_a\nXFAIL test_fn.py::test_b\nXFAIL test_mod.py::test_a\nXFAIL test_mod.py::test_b\nXPASS test_cls.py::TestX::test_a\nXPASS test_cls.py::TestX::test_b\nXPASS test_mod.py::test_a\nXPASS test_mod.py::test_b\n6 xfailed, 4 xpassed in 1.31s\n"
 }
 """
 
